@@ -121,6 +121,14 @@ class DecisionInterp:
                     return self._is_set(mem)
                 if mem in LETTER and isinstance(op, (ast.NotEq, ast.IsNot)):
                     return ALL_DEP - self._is_set(mem)
+                # env.get_status(t) in (TaskStatus.DONE, ...) / in FINAL
+                mems = self._status_members(right)
+                if mems is not None and isinstance(op, (ast.In, ast.NotIn)):
+                    inside = frozenset()
+                    for one in mems:
+                        inside = inside | self._is_set(one)
+                    return inside if isinstance(op, ast.In) else \
+                        ALL_DEP - inside
         if isinstance(expr, ast.Call):
             cname = call_name(expr)
             recv = receiver(expr)
@@ -131,6 +139,34 @@ class DecisionInterp:
                 if mem in LETTER:
                     return self._is_set(mem)
         raise Imprecise(f'element predicate not understood: {txt(expr)}')
+
+    def _status_members(self, expr, depth=0):
+        '''Members of TaskStatus in a literal collection, or in a
+        module-level constant bound to one (`FINAL = frozenset((...))`).'''
+        if isinstance(expr, ast.Call) and call_name(expr) in (
+                'frozenset', 'set', 'tuple', 'list') and len(expr.args) == 1:
+            expr = expr.args[0]
+        if isinstance(expr, (ast.Tuple, ast.List, ast.Set)):
+            mems = [enum_member(e, 'TaskStatus') for e in expr.elts]
+            if mems and all(m in LETTER for m in mems):
+                return mems
+            return None
+        if isinstance(expr, (ast.Name, ast.Attribute)) and depth < 2 and \
+                self.cur_func is not None:
+            name = expr.id if isinstance(expr, ast.Name) else expr.attr
+            val = self.cur_func.module.toplevel.get(name)
+            if isinstance(val, ast.AST):
+                return self._status_members(val, depth + 1)
+            # class-level constant (cls.FINAL / self.FINAL)
+            klass = getattr(self.cur_func, 'cls', None)
+            while klass is not None and hasattr(klass, 'node'):
+                for stmt in klass.node.body:
+                    if isinstance(stmt, ast.Assign) and any(
+                            isinstance(t, ast.Name) and t.id == name
+                            for t in stmt.targets):
+                        return self._status_members(stmt.value, depth + 1)
+                klass = getattr(klass, 'parent_cls', None)
+        return None
 
     def _is_set(self, mem):
         # is_X(t) on a task absent from the environment inserts the default
